@@ -108,8 +108,10 @@ func init() {
 			peersSet := tla.MakeSet(peerVals...)
 			constMacro := func(v tla.Value) steplib.Macro {
 				return steplib.Macro{
-					Read:  func(a *steplib.Access) (tla.Value, error) { return v, nil },
-					Write: func(a *steplib.Access, val tla.Value) error { return fmt.Errorf("%w: write to a constant parameter", distsys.ErrAssertionFailed) },
+					Read: func(a *steplib.Access) (tla.Value, error) { return v, nil },
+					Write: func(a *steplib.Access, val tla.Value) error {
+						return fmt.Errorf("%w: write to a constant parameter", distsys.ErrAssertionFailed)
+					},
 				}
 			}
 			sys.AddProc(fmt.Sprintf("r%d", k+n), self, nestedcrdtimpl.ACRDTResource, []steplib.Binding{
